@@ -95,6 +95,7 @@ def run(ctx):
         if 'log-key' in kinds:
             # dead guard: !n || (!n->in_edge() && n->out_edges().empty())
             bad = None
+            alive_kinds = set()
             for bid, b in f.blocks.items():
                 for i, s in enumerate(b['succ']):
                     ef = f.edge_fact(bid, i)
@@ -104,10 +105,13 @@ def run(ctx):
                     alive = (mentions_field(a, 'Node::in_edge_') and pol is True) or \
                         ('out_edges' in ef[0] and 'empty' in ef[0] and pol is False)
                     if alive and s is not None:
+                        alive_kinds.add('producer' if mentions_field(a, 'Node::in_edge_') else 'consumers')
                         r = f.find_path(None, lambda x: x is e, from_succ=s, init_facts=[(ef[0], ef[1])],
                                         is_blocker=lambda x: x['k'] == 'call' and x.get('name') == 'State::LookupNode')
                         if r is not None:
                             bad = (ef[0], r[0])
+            ctx.check('C18.V1', alive_kinds == {'producer', 'consumers'}, f.name, 'dead-guard:tests-absent', f.where(e),
+                      'whether a log key is dead is decided by looking at the node\'s producer and consumers (tests found: %s)' % sorted(alive_kinds))
             ctx.check('C18.V1', bad is None, f.name, 'dead-guard:weakened', f.where(e),
                       'a log key is removed only if its node is unknown or has neither producer nor consumers',
                       witness=None if bad is None else {'fact': bad[0], 'blocks': bad[1]})
@@ -163,6 +167,11 @@ def run(ctx):
     dr = prog.fn('Cleaner::DoCleanRule')
     full_range(ctx, 'C18.O1', dr, 'State::edges_', 'clean by rule visits every build statement')
     full_range(ctx, 'C18.O1', dr, 'Edge::outputs_', 'all outputs of a statement')
+    # statements are selected by the *name* of their rule: rules are scoped per file, a subninja file may declare a rule
+    # of the same name, and `-t clean -r NAME` means all of them (comparing Rule objects would keep their outputs)
+    for e in list(dr.calls('Cleaner::Remove')) + list(dr.calls('Cleaner::RemoveEdgeFiles')):
+        guarded(ctx, 'C18.O1', dr, e, lambda a: dstr(a).count('Rule::name') >= 2 and ('operator==' in dstr(a) or '==' in dstr(a)), True,
+                'clean by rule selects statements by comparing rule names', construct='DoCleanRule:not-by-name')
     dt = prog.fn('Cleaner::DoCleanTarget')
     full_range(ctx, 'C18.O1', dt, 'Edge::outputs_', 'all outputs of the target\'s statement')
     full_range(ctx, 'C18.O1', dt, 'Edge::inputs_', 'clean by target descends into every input')
